@@ -607,6 +607,17 @@ def rule_derived(ctx, rid, func, source, derived, tracker):
                            for s in ast.walk(n.ast.value)):
                         rebuilds.add(n.id)
     loop_heads = {n.id for n in cfg.nodes if n.kind == 'test' and isinstance(n.ast, ast.While)}
+    # alternative: the derived member is maintained in lockstep (same deletions, same number
+    # of pushes) instead of being rebuilt
+    s_sigs = sorted((e.op, e.sel) for es in ev.values() for e in es
+                    if e.member == source and e.op in STRUCTURAL and e.level == 'list')
+    d_sigs = sorted((e.op, e.sel) for es in ev.values() for e in es
+                    if e.member == derived and e.op in STRUCTURAL and e.level == 'list'
+                    and e.op != 'SET')
+    if s_sigs and s_sigs == d_sigs:
+        ctx.ob(rid, '%s:derived(%s<-%s)@lockstep' % (func.qualname, derived, source), True,
+               func.where(), '%r undergoes the same structural updates as %r' % (derived, source))
+        return
     for s in sorted(src_nodes):
         ok = bool(rebuilds) and cfg.must_pass(s, cfg.exit.id, rebuilds)
         # and no structural change of the source after the last rebuild (within one
